@@ -206,6 +206,8 @@ pub fn death_violation(prop: &str, d: &Death, trace: &Trace) -> Option<Violation
         ("C03", "stack_overflow_or_segv") => mk("stack_overflow", format!("stack_overflow:{target}")),
         ("C03", "abort") => mk("abort", format!("abort:{target}")),
         ("C20", "watchdog") => mk("stall", format!("stall_watchdog:{target}")),
+        // memory that follows coordinate values instead of the canvas ends in an abort on a real machine
+        ("C20", "alloc_budget") => mk("alloc_budget", format!("alloc_budget:{target}")),
         ("C01" | "C02" | "C20", "stack_overflow_or_segv") => mk("abort", "abort:stack_overflow_or_segv".into()),
         ("C01" | "C02" | "C20", "abort") => mk("abort", "abort:abort".into()),
         _ => None,
